@@ -828,6 +828,25 @@ def real_cases(chk, rng):
         ("NaH+-ecp-rohf-doublet", nah, 1, 1, "lanl2dz", False, [3, 4, 5, 6, 7, 8, 9], "fci", ecp),
         ("NaH-ecp-symmetry-rhf", nah, 0, 0, "lanl2dz", False, [3, 5, 6, 7, 8, 9], "fci", dict(ecp, symmetry=True)),
         ("H3--equilateral-unfrozen", h3m, -1, 0, "sto-3g", False, None, "fci", tgs),
+    ]
+    # point-charge embedding (IntegralSolverPySCFQMMM) x {RHF, ROHF, UHF} x {no frozen, some frozen}
+    def charges(n):
+        return [[round(rng.choice([-1, 1]) * rng.uniform(0.2, 0.6), 4),
+                 [round(rng.uniform(1.5, 2.5) * rng.choice([-1, 1]), 4), round(rng.uniform(-1., 1.), 4), round(rng.uniform(-1., 3.), 4)]] for _ in range(n)]
+    h2q, h3q = chain(2, rng), chain(3, rng)
+    cases += [
+        ("H2-qmmm-rhf", h2q, 0, 0, "sto-3g", False, None, "fci", {"solver": {"kind": "qmmm", "charges": charges(1)}}),
+        ("H2-qmmm-uhf", h2q, 0, 0, "sto-3g", True, None, "fci-restricted-twin", {"solver": {"kind": "qmmm", "charges": charges(2)}}),
+        ("H2-631g-qmmm-rhf-frozen", h2q, 0, 0, "6-31g", False, [3], "fci", {"solver": {"kind": "qmmm", "charges": charges(2)}}),
+        ("H3-qmmm-rohf", h3q, 0, 1, "sto-3g", False, None, "fci", {"solver": {"kind": "qmmm", "charges": charges(2)}}),
+        ("H3-qmmm-rohf-frozen", h3q, 0, 1, "sto-3g", False, [2], "fci", {"solver": {"kind": "qmmm", "charges": charges(1)}}),
+        ("H3-qmmm-uhf", h3q, 0, 1, "sto-3g", True, None, "fci-restricted-twin", {"solver": {"kind": "qmmm", "charges": charges(1)}}),
+        ("H3-qmmm-uhf-frozen", h3q, 0, 1, "sto-3g", True, [[2], [2]], "ucasci", {"solver": {"kind": "qmmm", "charges": charges(2)}}),
+        ("LiH-qmmm-rhf-frozen-core", lih, 0, 0, "sto-3g", False, "frozen_core", "fci", {"solver": {"kind": "qmmm", "charges": charges(2)}}),
+        ("LiH-qmmm-uhf-frozen", lih, 0, 0, "sto-3g", True, [[0, 5], [0, 5]], "ucasci", {"solver": {"kind": "qmmm", "charges": charges(1)}}),
+        ("H3+-qmmm-uhf-perspin", tri, 1, 0, "sto-3g", True, [[2], [1]], "ccsd-2e", {"solver": {"kind": "qmmm", "charges": charges(1)}}),
+    ]
+    cases += [
         ("CH2-bent-frozen-0-1-6", ch2, 0, 0, "sto-3g", False, [0, 1, 6], "fci", tgs),
     ]
     if not quick:
@@ -1032,11 +1051,11 @@ def contract_sector(coefs, st, dim):
 
 
 def part_d(chk, rng):
-    run_real(chk, real_cases(chk, rng), np.random.RandomState(chk.seed + 4), None, "c04/d")
+    run_real(chk, real_cases(chk, rng), np.random.RandomState(chk.seed + 4), None, "c04/d", histories=reuse_histories(chk, random.Random(chk.seed + 2)))
 
 
-def run_real(chk, cases, rs, only, name, max_parallel=16):
-    jobs, recs = real_record(chk, cases, rs, only)
+def run_real(chk, cases, rs, only, name, max_parallel=16, histories=None):
+    jobs, recs = real_record(chk, cases, rs, only, histories)
     real_evaluate(chk, recs, real_judge(jobs, name, max_parallel))
 
 
@@ -1044,7 +1063,152 @@ def real_judge(jobs, name, max_parallel=16):
     return tlc.judge("C04Trace", jobs, name, {"M": M}, timeout=3 * 3600, heap="6g", max_parallel=max_parallel)
 
 
-def real_record(chk, cases, rs, only):
+def make_solver(spec):
+    """{"kind": "pyscf"} | {"kind": "qmmm", "charges": [[q, [x, y, z]], ...]} -> a NEW IntegralSolver instance."""
+    from tangelo.toolboxes.molecular_computation.integral_solver_pyscf import IntegralSolverPySCF, IntegralSolverPySCFQMMM
+    if spec["kind"] == "qmmm":
+        return IntegralSolverPySCFQMMM([(float(c), tuple(float(x) for x in xyz)) for c, xyz in spec["charges"]])
+    return IntegralSolverPySCF()
+
+
+def build_molecule(xyz, q, spin, basis, uhf, frozen, opts, solver=None):
+    """SecondQuantizedMolecule from a case description; opts may carry ecp / symmetry and a solver spec."""
+    from tangelo import SecondQuantizedMolecule
+    o = copy.deepcopy({k: v for k, v in opts.items() if k not in ("tags", "solver")})
+    if solver is None and opts.get("solver"):
+        solver = make_solver(opts["solver"])
+    if solver is not None:
+        o["solver"] = solver
+    return SecondQuantizedMolecule(xyz, q, spin, basis=basis, uhf=uhf, frozen_orbitals=copy.deepcopy(frozen), **o)
+
+
+def classical_reference(mol, refkind, xyz, q, spin, basis, opts):
+    from tangelo.algorithms.classical import FCISolver, CCSDSolver
+    if refkind == "fci":
+        return FCISolver(mol).simulate()
+    if refkind == "fci-restricted-twin":
+        return FCISolver(build_molecule(xyz, q, spin, basis, False, None, opts)).simulate()
+    if refkind == "ucasci":
+        return ucasci_energy(mol)
+    return CCSDSolver(mol).simulate()
+
+
+def reuse_histories(chk, rng):
+    """Histories in which ONE solver instance is handed to successive molecules (a geometry scan sharing its solver):
+    same atoms / new geometry, same AO count / other element, then another basis."""
+    def ch(n):
+        return [[round(rng.choice([-1, 1]) * rng.uniform(0.2, 0.6), 4), [round(rng.uniform(1.5, 2.5), 4), round(rng.uniform(-1., 1.), 4), round(rng.uniform(-1., 3.), 4)]] for _ in range(n)]
+
+    def with_atoms(xyz, names):
+        return [(a, c) for a, (_, c) in zip(names, xyz)]
+    hs = []
+    g = chain(4, rng)
+    hs.append({"name": "rhf-H4-scan", "solver": {"kind": "pyscf"}, "uhf": False, "steps": [
+        dict(label="H4-a", xyz=chain(4, rng), q=0, spin=0, basis="sto-3g", frozen=None),
+        dict(label="H4-b", xyz=chain(4, rng), q=0, spin=0, basis="sto-3g", frozen=None),
+        dict(label="H2-631g-same-AO-count", xyz=chain(2, rng), q=0, spin=0, basis="6-31g", frozen=None),
+        dict(label="H3+-sto3g", xyz=chain(3, rng), q=1, spin=0, basis="sto-3g", frozen=None)]})
+    g = chain(3, rng)
+    hs.append({"name": "uhf-H3-scan", "solver": {"kind": "pyscf"}, "uhf": True, "steps": [
+        dict(label="H3-a", xyz=chain(3, rng), q=0, spin=1, basis="sto-3g", frozen=None),
+        dict(label="H3-b", xyz=chain(3, rng), q=0, spin=1, basis="sto-3g", frozen=None),
+        dict(label="H3-c-frozen", xyz=g, q=0, spin=1, basis="sto-3g", frozen=[[2], [2]]),
+        dict(label="H3-631g-frozen", xyz=chain(3, rng), q=0, spin=1, basis="6-31g", frozen=[[3, 4, 5], [3, 4, 5]])]})
+    g = chain(2, rng)
+    hs.append({"name": "qmmm-rhf-H2-scan", "solver": {"kind": "qmmm", "charges": ch(2)}, "uhf": False, "steps": [
+        dict(label="H2-a", xyz=chain(2, rng), q=0, spin=0, basis="sto-3g", frozen=None),
+        dict(label="H2-b", xyz=chain(2, rng), q=0, spin=0, basis="sto-3g", frozen=None),
+        dict(label="H2-c", xyz=g, q=0, spin=0, basis="sto-3g", frozen=None),
+        dict(label="H2-631g-frozen", xyz=chain(2, rng), q=0, spin=0, basis="6-31g", frozen=[3])]})
+    if not chk.quick:
+        hs.append({"name": "qmmm-uhf-H3-scan", "solver": {"kind": "qmmm", "charges": ch(1)}, "uhf": True, "steps": [
+            dict(label="H3-a", xyz=chain(3, rng), q=0, spin=1, basis="sto-3g", frozen=None),
+            dict(label="H3-b", xyz=chain(3, rng), q=0, spin=1, basis="sto-3g", frozen=[[2], [2]]),
+            dict(label="H3-c", xyz=chain(3, rng), q=0, spin=1, basis="sto-3g", frozen=None)]})
+        hs.append({"name": "rohf-H4+-scan", "solver": {"kind": "pyscf"}, "uhf": False, "steps": [
+            dict(label="H4+-a", xyz=chain(4, rng), q=1, spin=1, basis="sto-3g", frozen=None),
+            dict(label="H4+-b", xyz=chain(4, rng), q=1, spin=1, basis="sto-3g", frozen=[3]),
+            dict(label="H4+-c", xyz=chain(4, rng), q=1, spin=3, basis="sto-3g", frozen=None)]})
+        lih = lambda: [("Li", (0., 0., 0.)), ("H", (0., 0., round(rng.uniform(1.3, 1.9), 6)))]
+        hs.append({"name": "rhf-LiH-scan", "solver": {"kind": "pyscf"}, "uhf": False, "steps": [
+            dict(label="LiH-a", xyz=lih(), q=0, spin=0, basis="sto-3g", frozen=[0, 4, 5]),
+            dict(label="LiH-b", xyz=lih(), q=0, spin=0, basis="sto-3g", frozen=[0, 4, 5]),
+            dict(label="LiH-c", xyz=lih(), q=0, spin=0, basis="sto-3g", frozen=[0, 3])]})
+    return hs
+
+
+def reuse_record(chk, hist, jobs, meta, recs, rs, hi):
+    """Replays one solver-reuse history on the implementation and records the state of the molecules after every step.
+    scopes: latest-molecule(...)  the molecule that most recently ran its mean field on the shared solver
+            shared-mo_coeff:...   another molecule of the same solver (its coefficients live on the solver)"""
+    solver = make_solver(hist["solver"])
+    uhf = hist["uhf"]
+    opts = {"solver": hist["solver"]}
+    mols, refs = [], []
+    encs = [e for e in ENCODINGS if e[0] != "scBK"]
+
+    def point(k, scope, n):
+        st = hist["steps"][k]
+        m = mols[k]
+        info = dict(label="%s/%s[%d:%s]" % (hist["name"], st["label"], n, scope), xyz=st["xyz"], q=st["q"], spin=st["spin"], basis=st["basis"],
+                    uhf=uhf, frozen=st["frozen"], ref="fresh-solver", opts=opts, scope=scope, history=hist)
+        mapping, utd = encs[(hi + k + n) % len(encs)]
+        try:
+            rec = {"info": info, "mol": m, "e_fci": refs[k], "e_mf": float(m.mf_energy), "runs": []}
+            ids, coefs, dim = struct_jobs(m, mapping, utd, jobs, meta, (hi, mapping, utd, scope))
+            rec["runs"].append({"mapping": mapping, "utd": utd, "ids": ids, "coefs": coefs, "dim": dim, "rot": False})
+            recs.append(rec)
+        except Exception as e:
+            chk.violation("real:solver-reuse:%s:exception:%s" % (scope, type(e).__name__), "%s: %s" % (info["label"], e),
+                          {"kind": "reuse", "history": hist, "info": {k_: v for k_, v in info.items() if k_ != "history"}})
+
+    n = 0
+    for k, st in enumerate(hist["steps"]):
+        try:
+            mols.append(build_molecule(st["xyz"], st["q"], st["spin"], st["basis"], uhf, st["frozen"], {}, solver=solver))
+            # classical reference from an independent molecule with its own solver
+            fresh = build_molecule(st["xyz"], st["q"], st["spin"], st["basis"], uhf, st["frozen"], opts)
+            kind = "fci" if not uhf else ("fci-restricted-twin" if st["frozen"] is None else "ucasci")
+            refs.append(float(classical_reference(fresh, kind, st["xyz"], st["q"], st["spin"], st["basis"], opts)))
+        except Exception as e:
+            if "converge" in str(e):
+                chk.inconclusive += 1
+                return
+            chk.violation("real:solver-reuse:construction:exception:%s" % type(e).__name__, "%s/%s: %s" % (hist["name"], st["label"], e),
+                          {"kind": "reuse", "history": hist, "info": {"label": st["label"]}})
+            return
+        point(k, "latest-molecule", n)
+        n += 1
+        same_ao = k >= 1 and mols[k - 1].n_mos == mols[k].n_mos
+        if same_ao:
+            early = mols[k - 1]
+            early.get_integrals()
+            early.get_full_space_integrals()
+            early.fermionic_hamiltonian
+            point(k - 1, "shared-mo_coeff:earlier-molecule-after-later-construction", n)
+            n += 1
+            point(k, "latest-molecule:after-calls-on-earlier", n)
+            n += 1
+            if k == 1:
+                # the earlier molecule gets rotated coefficients through its setter (its own mean-field orbitals, rotated)
+                c0 = early.mean_field.mo_coeff
+                act = early.active_mos
+                if uhf:
+                    new = [np.array(c0[s_], dtype=float).copy() for s_ in range(2)]
+                    for s_ in range(2):
+                        new[s_][:, list(act[s_])] = new[s_][:, list(act[s_])] @ random_rotation(len(act[s_]), rs)
+                else:
+                    new = np.array(c0, dtype=float).copy()
+                    new[:, list(act)] = new[:, list(act)] @ random_rotation(len(act), rs)
+                try:
+                    early.mo_coeff = new
+                except Exception as e:
+                    chk.violation("real:solver-reuse:setter:exception:%s" % type(e).__name__, "%s: %s" % (hist["name"], e), {"kind": "reuse", "history": hist, "info": {}})
+                point(k, "shared-mo_coeff:other-molecule-after-setter", n)
+                n += 1
+
+
+def real_record(chk, cases, rs, only, histories=None):
     """Phase 1: run the implementation (PySCF) and record the artefacts as structure jobs."""
     from tangelo import SecondQuantizedMolecule
     from tangelo.algorithms.classical import FCISolver, CCSDSolver
@@ -1053,19 +1217,12 @@ def real_record(chk, cases, rs, only):
     for ci, cs in enumerate(cases):
         label, xyz, q, spin, basis, uhf, frozen, refkind = cs[:8]
         opts = dict(cs[8]) if len(cs) > 8 else {}
-        tags = opts.pop("tags", [])
+        tags = opts.get("tags", [])
         info = {"label": label, "xyz": xyz, "q": q, "spin": spin, "basis": basis, "uhf": uhf, "frozen": frozen, "ref": refkind,
-                "opts": dict(opts, tags=tags)}
+                "opts": opts}
         try:
-            mol = SecondQuantizedMolecule(xyz, q, spin, basis=basis, uhf=uhf, frozen_orbitals=copy.deepcopy(frozen), **copy.deepcopy(opts))
-            if refkind == "fci":
-                e_fci = FCISolver(mol).simulate()
-            elif refkind == "fci-restricted-twin":
-                e_fci = FCISolver(SecondQuantizedMolecule(xyz, q, spin, basis=basis, uhf=False, frozen_orbitals=None, **copy.deepcopy(opts))).simulate()
-            elif refkind == "ucasci":
-                e_fci = ucasci_energy(mol)
-            else:
-                e_fci = CCSDSolver(mol).simulate()
+            mol = build_molecule(xyz, q, spin, basis, uhf, frozen, opts)
+            e_fci = classical_reference(mol, refkind, xyz, q, spin, basis, opts)
         except Exception as e:
             if "converge" in str(e):        # SCF non-convergence at a random geometry is not a statement about C04
                 chk.inconclusive += 1
@@ -1109,6 +1266,8 @@ def real_record(chk, cases, rs, only):
                 rec["runs"].append({"mapping": mapping, "utd": utd, "ids": ids, "coefs": coefs, "dim": dim, "rot": "argument"})
         except Exception as e:
             chk.violation("real:rotation:exception:%s" % type(e).__name__, "%s: %s" % (info["label"], e), case)
+    for hi, hist in enumerate(histories or []):
+        reuse_record(chk, hist, jobs, meta, recs, rs, hi)
     return jobs, recs
 
 
@@ -1126,10 +1285,16 @@ def real_evaluate(chk, recs, judged):
     for rec in recs:
         info = rec["info"]
         ref = "uhf" if info["uhf"] else ("rohf" if info["spin"] else "rhf")
+        if info.get("opts", {}).get("solver", {}).get("kind") == "qmmm":
+            ref = "qmmm-" + ref
         frz = "full" if info["frozen"] is None else "frozen"
+        if info.get("scope"):          # a point of a solver-reuse history: real:solver-reuse:<scope>:<reference>:...
+            ref, frz = "solver-reuse:" + info["scope"], ref
         for run_ in rec["runs"]:
             enc = "%s:%s" % (run_["mapping"], "updown" if run_["utd"] else "alternating")
             case = {"kind": "real", "info": info, "mapping": run_["mapping"], "utd": run_["utd"]}
+            if info.get("history"):
+                case = {"kind": "reuse", "history": info["history"], "info": {k: v for k, v in info.items() if k != "history"}}
             e_j = struct[run_["ids"]["sref"]]
             st = struct[run_["ids"]["ssec"]]
             n_struct += len(e_j) + sum(len(r_) for r_ in st)
@@ -1232,7 +1397,8 @@ def run(chk):
     ta = start("A_tlc", lambda: part_a_tlc(chk)) if "A" in parts else None
     if "D" in parts:
         t0 = time.time()
-        djobs, drecs = real_record(chk, real_cases(chk, random.Random(chk.seed + 1)), np.random.RandomState(chk.seed + 4), None)
+        djobs, drecs = real_record(chk, real_cases(chk, random.Random(chk.seed + 1)), np.random.RandomState(chk.seed + 4), None,
+                                   reuse_histories(chk, random.Random(chk.seed + 2)))
         walls["D_record"] = round(time.time() - t0, 1)
         threads.append(start("D_tlc", lambda: real_judge(djobs, "c04/d", 4)))
     if ta is not None:
@@ -1292,6 +1458,15 @@ def replay(chk, rec):
                 if t.startswith('<<"D"') and "<<>>" not in t:
                     print("first mismatching element <<\"D\", id, <<X, Y, 2^K <X|H_code|Y>, 2^(K-1) <F u X|2 H_full|F u Y>>> >>:", t)
         return ok
+    if kind == "reuse":
+        c2 = check.Check("C04", ["quick"])
+        c2.known = []
+        c2._c04_replay = True
+        run_real(c2, [], np.random.RandomState(chk.seed + 4), None, "c04/replay_d", histories=[case["history"]])
+        for v in c2.violations:
+            print("violation:", v[0], v[1])
+        keys = [v[0] for v in c2.violations]
+        return rec.get("key") not in keys if rec.get("key") else not keys
     if kind == "real":
         c2 = check.Check("C04", ["quick"])
         c2.known = []
